@@ -188,6 +188,10 @@ pub fn bad_knobs() -> Vec<BadKnob> {
         k!("porder-15", true, |s, f| { let x = last_sub(s, f); x.kind = SubKind::Fixed(0); x.bad.order_raw = Some(15) }),
         k!("porder-nondividing", true, |s, f| { let n = s.frames[f].pcm[0].len(); let x = last_sub(s, f); x.kind = SubKind::Fixed(0); x.bad.order_raw = Some((n.trailing_zeros() + 1).min(15) as u8) }),
         k!("porder-first-partition-negative", true, |s, f| { let n = s.frames[f].pcm[0].len(); let x = last_sub(s, f); x.kind = SubKind::Fixed(if n > 4 { 4 } else { 1 }); x.bad.order_raw = Some(n.trailing_zeros().min(15) as u8) }),
+        k!("short-nonfinal-block-5", true, |s, _f| { if s.frames.len() > 1 && s.total == TotalSpec::Exact { let ch = s.channels as usize; for c in 0..ch { s.frames[0].pcm[c].truncate(5); } } else { s.frames[0].bad.crc16_wrong = true } }),
+        k!("short-nonfinal-block-14", true, |s, _f| { if s.frames.len() > 1 && s.total == TotalSpec::Exact && s.frames[0].pcm[0].len() >= 14 { let ch = s.channels as usize; for c in 0..ch { s.frames[0].pcm[c].truncate(14); } } else { s.frames[0].bad.crc16_wrong = true } }),
+        // (with an unknown total a streaming decoder cannot know that a short block is not the last one when it delivers it:
+        //  the two knobs above degrade to a wrong CRC-16 there)
         // ---- a decoder MAY accept these
         k!("padding-ones", false, |s, f| { s.frames[f].bad.padding_ones = true; last_sub(s, f).kind = SubKind::Fixed(0) }),
         k!("residual-min", false, |s, f| { let x = last_sub(s, f); x.kind = SubKind::Fixed(0); x.res.method = 1; x.bad.residual_force = Some((0, i32::MIN as i64)) }),
